@@ -24,9 +24,9 @@ pub struct Atom {
     pub searches: Vec<u64>,
 }
 
-pub const KINDS: [&str; 19] = [
+pub const KINDS: [&str; 24] = [
     "down", "loop_if", "loop_or", "loop_iferror", "loop_optor", "map", "map_down", "nth", "take_while", "skip_until", "gen_len", "gen_map_len", "gen_get",
-    "seq_eq", "binom", "multinom", "multinom3", "loop_optopt", "gen_windows",
+    "seq_eq", "binom", "multinom", "multinom3", "loop_optopt", "gen_windows", "gen_filter", "nth_back", "seq_cmp", "seq_to_str", "seq_hash",
 ];
 
 const PRIME: u128 = 1_000_003;
@@ -285,6 +285,64 @@ pub fn atom(kind: &str, k: usize, n: u64) -> Atom {
             height: 0,
             tail: 0,
             searches: vec![n + 2],
+        },
+        "gen_filter" => Atom {
+            kind: "gen_filter",
+            param: n,
+            decl: String::new(),
+            // every third element passes: the consumer examines n, each run of rejections is 2 long
+            expr: format!("range({}).to_generator().filter((v_x: int)->{{v_x % 3 == 0}}).len()", 3 * n),
+            value: ni,
+            calls: 3 * n,
+            height: if n > 0 { 1 } else { 0 },
+            tail: 0,
+            searches: if n > 0 { vec![n, 2] } else { vec![0] },
+        },
+        "nth_back" => Atom {
+            kind: "nth_back",
+            param: n,
+            decl: String::new(),
+            // backwards search that never matches examines every element
+            expr: format!("if(range({n}).nth(0 - 1, (v_x: int)->{{v_x < 0}}).has_value(), 1, 0)"),
+            value: 0,
+            calls: n,
+            height: if n > 0 { 1 } else { 0 },
+            tail: 0,
+            searches: vec![n],
+        },
+        "seq_cmp" => Atom {
+            kind: "seq_cmp",
+            param: n,
+            decl: String::new(),
+            // first difference at index n
+            expr: format!("cmp(range({}).to_array(), range({n}).to_array() + [{}]) + 1", n + 1, n + 5),
+            value: 0,
+            calls: 0,
+            height: 0,
+            tail: 0,
+            searches: vec![n + 1],
+        },
+        "seq_to_str" => Atom {
+            kind: "seq_to_str",
+            param: n,
+            decl: String::new(),
+            expr: format!("if(range({n}).to_array().to_str().len() >= 2, {n}, 0 - 1)"),
+            value: ni,
+            calls: 0,
+            height: 0,
+            tail: 0,
+            searches: vec![n],
+        },
+        "seq_hash" => Atom {
+            kind: "seq_hash",
+            param: n,
+            decl: String::new(),
+            expr: format!("if(range({n}).to_array().hash() >= 0, {n}, 0 - 1)"),
+            value: ni,
+            calls: 0,
+            height: 0,
+            tail: 0,
+            searches: vec![n],
         },
         other => panic!("unknown atom kind {other}"),
     }
